@@ -198,10 +198,13 @@ def assume_content_invariants(I, o):
         I.c.assume(f["a0"] >= 0)
 
 
-def valid_object(I, cls):
-    """arbitrary object of class cls satisfying the representation invariant"""
+def valid_object(I, cls, without_grid_shape=False):
+    """arbitrary object of class cls satisfying the representation invariant
+    (without_grid_shape: omit n_meshes == w*h*d for functions that never read w, h, d)"""
     o = fresh_state(I, cls)
     for fct in inv(I, o):
+        if without_grid_shape and is_grid(cls) and z3.eq(fct, o.fields["n_meshes"] == o.fields["w"] * o.fields["h"] * o.fields["d"]):
+            continue
         I.c.assume(fct)
     return o
 
@@ -244,8 +247,27 @@ def _f(fr):
 
 
 def inv_sample_on_tsample(I, fr, stage):
+    """while loop of SampleOnTSample: every requested time passed so far is <= t; at most one record, made
+    exactly when the cursor has moved (ghost values are the state at loop entry)"""
     f = _f(fr)
-    return [f["sampled_mesh_x"].n == f["sampled_t"].n, f["sample_pos"] >= 0, f["sample_pos"] <= f["n_samples"]]
+    if not hasattr(I, "ghost") or I.ghost is None:
+        I.ghost = {}
+    if stage == "init":
+        I.ghost["tsample"] = {"pos0": f["sample_pos"], "t0": f["t"], "ts0": f["t_samples"].arr, "n0": f["sampled_t"].n,
+                              "done0": f["sampling_done_this_iteration"], "st0": f["sampled_t"].arr}
+    g = I.ghost["tsample"]
+    p = z3.Int("p!q")
+    return [f["sampled_mesh_x"].n == f["sampled_t"].n, f["sample_pos"] >= g["pos0"], f["sample_pos"] >= 0,
+            f["sample_pos"] <= f["n_samples"],
+            z3.ForAll([p], z3.Implies(z3.And(p >= g["pos0"], p < f["sample_pos"]), f["t"] >= z3.Select(f["t_samples"].arr, p))),
+            f["t"] == g["t0"], f["t_samples"].arr == g["ts0"],
+            z3.If(f["sample_pos"] > g["pos0"],
+                  z3.And(f["sampling_done_this_iteration"], f["sampled_t"].n == g["n0"] + z3.If(g["done0"], 0, 1),
+                         z3.Implies(z3.Not(g["done0"]),
+                                    z3.And(z3.Select(f["sampled_t"].arr, g["n0"]) == g["t0"],
+                                           z3.Select(f["sampled_mesh_x"].arr, g["n0"]) == f["mesh_x"].arr,
+                                           z3.Select(f["sampled_mesh_x"].lens, g["n0"]) == f["mesh_x"].n))),
+                  z3.And(f["sampled_t"].n == g["n0"], f["sampling_done_this_iteration"] == g["done0"]))]
 
 
 def inv_draw_outer(I, fr, stage):
